@@ -4,7 +4,7 @@ from vlib import Case, hx
 
 HARNESS = "rx_driver"
 LEAN_MODULES = ["ViaProofs.C16", "ViaProofs.Trans.RT"]
-REQUIRED_THEOREMS = ["Via.C16", "Via.C16_no_throw", "Via.RT_handleRequest", "Via.RT_guard"]
+REQUIRED_THEOREMS = ["Via.C16", "Via.C16_no_throw", "Via.RT_handleRequest", "Via.RT_guard", "Via.RT_searchPath", "Via.RT_hasParameters"]
 LEVEL = "proof"
 LEVEL_TEXT = ("PROOF that the router's dispatch equals a 10-line specification matcher for every route table, target and method (refinement), and never throws; correspondence exhaustive over small tables plus random larger ones, duplicate registrations, multi-'?' targets.")
 RULE = ("route tables over segment alphabet {a,b,:x,:y} (patterns of 1..3 segments, distinct parameter names) with GET/POST "
